@@ -34,6 +34,8 @@ Step == \/ Is("begin") /\ BBegin
         \/ Is("pstart") /\ \E o \in Perms(sl \ KeysOf(si)) : PStart(o)
         \/ Is("pappend") /\ PAppend
         \/ Is("pcommit") /\ PCommit
+        \/ Is("pdone") /\ PDone
+        \/ Is("pcleanown") /\ PCleanOwnAll
         \/ Is("cstart") /\ CStart
         \/ Is("cleanall") /\ CleanAll
         \/ Is("dappend") /\ DAppend(Ln.k)
